@@ -606,3 +606,21 @@ P("C06", IG, "            nsteps_to_return <= length", "            length >= ns
 B("C18", NW, "            synapse_currents = vmap(\n                synapse_type.compute_current, in_axes=(None, 0, 0, None)\n            )(", "            if not hasattr(synapse_type, \"_vm\"):\n                synapse_type._vm = vmap(\n                    synapse_type.compute_current, in_axes=(None, 0, 0, None)\n                )\n            synapse_currents = synapse_type._vm(", "R-C18-plain")
 # bounds are stored in the precision given
 B("C17", TF, "        self.lower = lower\n        self.width = upper - lower", "        lower = jnp.asarray(lower, dtype=jnp.float32)\n        upper = jnp.asarray(upper, dtype=jnp.float32)\n        self.lower = lower\n        self.width = upper - lower", "R-C17-bounds")
+# round 8, wave 2 -------------------------------------------------------------------------------------------------------
+# every link of a chain derives its view from the view it is called on
+B("C11", BASE, "        view = View(self, nodes, edges)\n        view._set_controlled_by_param(\"filter\")", "        view = View(self.base, nodes, edges)\n        view._set_controlled_by_param(\"filter\")", "R-C11-chain")
+for _p, _r in (("C11", "R-C11-filter"), ("C20", "R-C20-filter")):
+    B(_p, BASE, "        nodes = self._nodes_in_view if is_str_all(nodes) else nodes", "        nodes = self._nodes_in_view if is_str_all(nodes) or np.size(nodes) == len(self._nodes_in_view) else nodes", _r)
+    P(_p, BASE, "        nodes = self._nodes_in_view if is_str_all(nodes) else nodes", "        if is_str_all(nodes):\n            nodes = self._nodes_in_view")
+# parents of a level are found by the value of their level
+for _p, _r in (("C01", "R-C01-levels"), ("C12", "R-C12-levels")):
+    P(_p, CU, "        parents_inds_in_current_level = np.where(level_of_parent == l)[0]", "        parents_inds_in_current_level = np.flatnonzero(level_of_parent == l)")
+# the compressed layout: three arrays, one axis
+for _p, _r in (("C01", "R-C01-assembly"), ("C15", "R-C15-assembly")):
+    B(_p, "jaxley/utils/solver_utils.py", "    sorted_indices = np.lexsort((row_ind, col_ind))", "    sorted_indices = np.lexsort((col_ind, row_ind))", _r)
+    B(_p, "jaxley/utils/solver_utils.py", "    indices = row_ind\n", "    indices = col_ind\n", _r)
+# the new rows of set_ncomp get back the column types of the whole table
+B("C13", BASE, "        boolean_cols = channel_names\n", "        boolean_cols = [c._name for c in self.channels]\n", "R-C13-dtypes")
+P("C13", BASE, "        boolean_cols = channel_names\n", "        boolean_cols = [channel._name for channel in self.base.channels]\n")
+# partial application binds by name
+B("C16", CU, "    return partial(_radius, cutoffs=cutoffs, radiuses=radiuses)", "    return partial(_radius, cutoffs, radiuses)", "R-C16-argnames")
